@@ -2,11 +2,12 @@ package rules
 
 import (
 	"fmt"
+	"go/constant"
+	"go/token"
+	"go/types"
 	"os"
 	"path/filepath"
 	"strings"
-
-	"go/types"
 
 	"golang.org/x/tools/go/ssa"
 
@@ -71,18 +72,26 @@ func doorsStoreOnSuccess(x *Ctx) {
 			continue
 		}
 		n, bad := 0, ""
-		for _, p := range sel {
-			if p.End != paths.EndReturn {
+		_ = sel
+		for _, p := range x.pathsQuiet(f) {
+			if p.End == paths.EndPanic {
 				continue
 			}
+			// an iteration (or the whole function) in which token.FromSealed is known to have succeeded
 			read := false
 			for _, c := range p.Calls() {
-				if ct := p.Term(c); ct != nil && ct.Op == "call" && ct.Name == "token.FromSealed" {
+				if ct := p.Term(c); ct != nil && ct.Op == "call" && ct.Name == "token.FromSealed" && p.HasFact(eqs(ct.String()+"#2", "const(nil)"), true) {
 					read = true
 				}
 			}
 			if !read {
 				continue
+			}
+			if p.End == paths.EndReturn {
+				// leaving with an error (or, for a loop body run by an iterator, with "stop") is not a success
+				if rs := p.Results(); len(rs) > 0 && rs[len(rs)-1] != nil && !rs[len(rs)-1].IsNil() && rs[len(rs)-1].String() != "const(true)" {
+					continue
+				}
 			}
 			n++
 			stored := false
@@ -248,4 +257,203 @@ func optionsPassValues(x *Ctx) {
 		}
 	}
 	x.C.Obl("C10.R4", "option-passes-value", "-", fmt.Sprintf("each of the %d calls of Args.Add / Meta.Add / Meta.AddEncrypted / literal.Any in the token packages receives the caller's value unchanged", n), bad == "" && n > 0, dedupLines(bad))
+}
+
+// listsExcludeBytes (C10.R4): a slice or array of bytes is a byte string, whatever its static type (a named byte
+// slice, a []byte nested in a map or list). In anyAssemble every path that answers with qp.List knows the element
+// kind of the value not to be reflect.Uint8 (a type assertion to []byte in place of the kind test lets the other
+// byte slices through as lists of integers).
+func listsExcludeBytes(x *Ctx) {
+	f := x.fn("C10.R4", "pkg/policy/literal.anyAssemble")
+	if f == nil {
+		return
+	}
+	n, bad := 0, ""
+	for _, p := range x.paths("C10.R4", f) {
+		if p.End != paths.EndReturn || len(p.Results()) != 1 || p.Results()[0] == nil {
+			continue
+		}
+		r := p.Results()[0]
+		if r.Op != "call" || !strings.HasSuffix(r.Name, "fluent/qp.List") {
+			continue
+		}
+		n++
+		known := false
+		for _, fc := range p.Facts {
+			s := fc.Atom.String()
+			if !fc.Pol && fc.Atom.Op == "eq" && strings.Contains(s, "const(8)") && strings.Contains(s, "reflect.Type.Elem") && strings.Contains(s, "Kind]") {
+				known = true
+			}
+		}
+		if !known {
+			bad += "a list is assembled on a path that does not know the element kind to differ from reflect.Uint8:\n" + p.String() + "\n"
+		}
+	}
+	x.C.Obl("C10.R4", "lists-exclude-bytes:anyAssemble", x.pos(f), "a sequence is assembled as a list only where its elements are known not to be bytes", bad == "" && n > 0, firstLines(bad, 12))
+}
+
+// repeatCounts lists the calls of strings.Repeat / bytes.Repeat (which panic on a negative count) whose count is
+// not known to be non-negative: not a constant >= 0, not a len / cap / max(0, ...) / a rune or byte count, and not
+// under a dominating test of the count against zero.
+func repeatCounts(fns []*ssa.Function) (n int, flagged []string) {
+	nonNeg := func(v ssa.Value) bool {
+		for i := 0; i < 4; i++ {
+			if c, ok := v.(*ssa.Convert); ok {
+				v = c.X
+				continue
+			}
+			break
+		}
+		switch t := v.(type) {
+		case *ssa.Const:
+			if t.Value != nil {
+				if i, ok := constantInt64(t); ok && i >= 0 {
+					return true
+				}
+			}
+		case *ssa.Call:
+			if b, ok := t.Call.Value.(*ssa.Builtin); ok {
+				switch b.Name() {
+				case "len", "cap":
+					return true
+				case "max":
+					for _, a := range t.Call.Args {
+						if c, ok := a.(*ssa.Const); ok {
+							if i, ok := constantInt64(c); ok && i >= 0 {
+								return true
+							}
+						}
+					}
+				}
+			}
+			if h := t.Call.StaticCallee(); h != nil && h.Pkg != nil && h.Pkg.Pkg.Path() == "unicode/utf8" && strings.HasPrefix(h.Name(), "RuneCount") {
+				return true
+			}
+		}
+		return false
+	}
+	guarded := func(in ssa.Instruction, v ssa.Value) bool {
+		b := in.Block()
+		for d := b.Idom(); d != nil; b, d = d, d.Idom() {
+			if len(d.Instrs) == 0 {
+				continue
+			}
+			iff, ok := d.Instrs[len(d.Instrs)-1].(*ssa.If)
+			if !ok {
+				continue
+			}
+			bo, ok := iff.Cond.(*ssa.BinOp)
+			if !ok {
+				continue
+			}
+			taken := -1
+			for i, sc := range d.Succs {
+				if sc == b && len(sc.Preds) == 1 {
+					taken = i
+				}
+			}
+			if taken < 0 {
+				continue
+			}
+			x, y, op := bo.X, bo.Y, bo.Op
+			if x != v && y == v {
+				// mirror: c OP v  ==  v OP' c
+				x, y = y, x
+				switch op {
+				case token.LSS:
+					op = token.GTR
+				case token.LEQ:
+					op = token.GEQ
+				case token.GTR:
+					op = token.LSS
+				case token.GEQ:
+					op = token.LEQ
+				}
+			}
+			if x != v {
+				continue
+			}
+			c, ok := y.(*ssa.Const)
+			if !ok {
+				continue
+			}
+			k, ok := constantInt64(c)
+			if !ok {
+				continue
+			}
+			switch {
+			case taken == 0 && (op == token.GTR && k >= -1 || op == token.GEQ && k >= 0):
+				return true
+			case taken == 1 && (op == token.LSS && k >= 0 || op == token.LEQ && k >= -1):
+				return true
+			}
+		}
+		return false
+	}
+	for _, f := range fns {
+		for _, b := range f.Blocks {
+			for _, in := range b.Instrs {
+				c, ok := in.(*ssa.Call)
+				if !ok {
+					continue
+				}
+				h := c.Call.StaticCallee()
+				if h == nil || h.Pkg == nil || h.Name() != "Repeat" || len(c.Call.Args) != 2 {
+					continue
+				}
+				if pp := h.Pkg.Pkg.Path(); pp != "strings" && pp != "bytes" {
+					continue
+				}
+				n++
+				if v := c.Call.Args[1]; !nonNeg(v) && !guarded(in, v) {
+					flagged = append(flagged, load.ShortName(f)+"@"+fmt.Sprint(int(c.Pos())))
+				}
+			}
+		}
+	}
+	return
+}
+
+func constantInt64(c *ssa.Const) (int64, bool) {
+	if c == nil || c.Value == nil {
+		return 0, false
+	}
+	if c.Value.Kind() != constant.Int {
+		return 0, false
+	}
+	return constant.Int64Val(c.Value)
+}
+
+// noNegativeRepeats (C09.P5): see repeatCounts; with the canary lint/testdata/canary/repeat (exactly Pad is flagged).
+func noNegativeRepeats(x *Ctx) {
+	var fns []*ssa.Function
+	for _, f := range x.P.ModuleFuncs() {
+		if x.P.IsLibrary(f) && len(f.Blocks) > 0 {
+			fns = append(fns, f)
+		}
+	}
+	n, flagged := repeatCounts(fns)
+	bad := ""
+	for _, s := range flagged {
+		i := strings.LastIndex(s, "@")
+		var pos int
+		fmt.Sscan(s[i+1:], &pos)
+		bad += fmt.Sprintf("%s: %s repeats a string a number of times that is not known to be non-negative: strings.Repeat panics on a negative count\n", x.P.Pos(token.Pos(pos)), s[:i])
+	}
+	x.C.Obl("C09.P5", "repeat-counts", "-", fmt.Sprintf("each of the %d calls of strings.Repeat / bytes.Repeat in %d library functions has a count known not to be negative", n, len(fns)), bad == "" && len(fns) > 0, dedupLines(bad))
+	if canaryProg == nil {
+		cp, err := load.Load(load.Options{Dir: filepath.Join(x.VerifDir, "lint", "testdata", "canary"), Module: "canary"})
+		if err != nil {
+			x.C.Unresolved("C09.P5", "repeat-counts-canary-load", "-", err.Error())
+			return
+		}
+		canaryProg = cp
+	}
+	got := map[string]bool{}
+	_, cf := repeatCounts(canaryProg.ModuleFuncs())
+	for _, s := range cf {
+		nm := s[:strings.LastIndex(s, "@")]
+		got[nm[strings.LastIndex(nm, ".")+1:]] = true
+	}
+	x.C.Obl("C09.P5", "repeat-counts:canary", "lint/testdata/canary/repeat/repeat.go", "the seeded width-minus-byte-length count is flagged; a guarded, a constant, a len and a max(0, ...) count are not", len(got) == 1 && got["Pad"], fmt.Sprint(got))
 }
